@@ -28,7 +28,7 @@ typedef struct sim_dgram {
 
 /* verdict of the environment for one emitted datagram */
 typedef struct sim_verdict {
-  int copies;             /* 0 = drop, 1 = pass, n = duplicate */
+  int copies;             /* 0 = drop, 1 = pass, n = duplicate, -1 = the send call itself fails (ENOBUFS) */
   uint32_t delay[4];      /* per copy: transit delay in ms */
 } sim_verdict_t;
 
